@@ -36,10 +36,10 @@ Mark == /\ CheckInv("NeverEarly", NeverEarly) /\ CheckInv("AtMostOnce", AtMostOn
         /\ CheckInv("LateAlwaysRefused", LateAlwaysRefused) /\ CheckInv("EarlyAccepted", EarlyAccepted)
         /\ CheckInv("Ordered", Ordered) /\ CheckInv("CurrIsMin", CurrIsMin)
         /\ CheckInv("OnlyScheduled", OnlyScheduled) /\ CheckInv("TypeOK", TypeOK)
-        /\ HWMark
 \* the action properties of the design spec, as an action constraint (a violating step is pruned and recorded)
 ActOK == /\ CheckInv("ReAddNoEffect",
                      (Len(status') = Len(status) + 1 /\ status'[Len(status')][4])
                         => (pending' = pending /\ curr' = curr /\ out' = out /\ reported' = reported))
          /\ CheckInv("DropOnlyWhenFull", dropped' # dropped => Len(out) = K)
+         /\ HWMarkA
 ====
